@@ -82,8 +82,8 @@ theorem resubmit_inv {val : Key → Option V} {w : W V} {id : Nat} (h : Inv' val
     rfl
   refine ⟨_, hres, ?_, rfl, rfl, by show w.ovfIdx ≤ w.ovfIdx - j + 128; omega, by show w.ovfIdx - j ≤ w.ovfIdx; omega, rfl, rfl, ?_, ?_⟩
   · -- the invariant
-    refine ⟨keys_foldl_rput new m1 (keys_rput h.keys _ _), ?_, ?_, by show w.reqIdx ≤ w.ovfIdx - j; omega, ?_, ?_, ?_, ?_,
-      Or.inl hlive, h.live, h.ps, h.pv⟩
+    refine ⟨⟨keys_foldl_rput new m1 (keys_rput h.keys _ _), ?_, ?_, by show w.reqIdx ≤ w.ovfIdx - j; omega, ?_, ?_, ?_, ?_,
+      h.ps, h.pv⟩, Or.inl hlive, h.live, (fun _ (e : fin = []) => by rw [e] at hmainfin; cases hmainfin)⟩
     · -- mainLt
       intro id' l k' hmem
       rcases (hfin _).1 hmem with g | g
